@@ -1,7 +1,7 @@
 /-!
 # The glue functions as the models were written from them (reviewed lists)
 
-One list per function of src/stgutg/{ngsetup,ue,pdu,service,utils}.go and src/tglib/{security,packet,decode,ranUe}.go, in the normal
+One list per function of src/stgutg/{ngsetup,ue,pdu,service,utils}.go and src/tglib/{security,packet,decode,ranUe}.go and src/free5gclib/UeauCommon/UeauCommon.go, in the normal
 form of `gen procs` (harness/cmd/gen/procs.go): one string per top-level statement, comments / formatting / progress messages
 dropped, local variables renamed v0, v1, … in order of appearance. `Props/GluePinned.lean` proves that what `gen procs` extracts from
 /repo on every run is still this text. The models that mirror these functions: `Model/Emulator.lean` (the procedures and main's
@@ -593,7 +593,27 @@ def tglib_RanUeContext_GetUESecurityCapability : List String := [
   "return"
 ]
 
+/-- `UeauCommon.GetKDFValue` -/
+def UeauCommon_GetKDFValue : List String := [
+  "func(v0 []byte, v1 string, v2 ...[]byte) []byte",
+  "v3 := hmac.New(sha256.New, v0)",
+  "var v4 []byte",
+  "if v5, v6 := hex.DecodeString(string(v1)); v6 != nil { log.Printf(\"Hex decode failed: %+v\", v6) } else { v4 = v5 }",
+  "for _, v7 := range v2 { v4 = append(v4, v7...) }",
+  "if _, v6 := v3.Write(v4); v6 != nil { log.Printf(\"KDF write failed: %+v\", v6) }",
+  "v8 := v3.Sum(nil)",
+  "return v8"
+]
+
+/-- `UeauCommon.KDFLen` -/
+def UeauCommon_KDFLen : List String := [
+  "func(v0 []byte) []byte",
+  "var v1 = make([]byte, 2)",
+  "binary.BigEndian.PutUint16(v1, uint16(len(v0)))",
+  "return v1"
+]
+
 /-- the functions found, in order -/
-def names : List String := ["stgutg_Conf_GetConfiguration", "stgutg_CreateUE", "stgutg_DecodePDUSessionNASPDU", "stgutg_DecodePDUSessionResourceSetupRequestTransfer", "stgutg_DeregisterUE", "stgutg_EncodeSuci", "stgutg_EstablishPDU", "stgutg_FindPDUSessionResourceSetupListSUReq", "stgutg_GetMode", "stgutg_ManageError", "stgutg_ManageNGSetup", "stgutg_Min", "stgutg_ModifyPDU", "stgutg_RegisterUE", "stgutg_ReleasePDU", "stgutg_ServiceRequest", "stgutg_hexCharToByte", "tglib_EncodeNasPduWithSecurity", "tglib_GetAccessAndMobilitySubscriptionData", "tglib_GetAmPolicyData", "tglib_GetAuthSubscription", "tglib_GetHandoverNotify", "tglib_GetHandoverRequestAcknowledge", "tglib_GetHandoverRequired", "tglib_GetInitialContextSetupResponse", "tglib_GetInitialContextSetupResponseForServiceRequest", "tglib_GetInitialUEMessage", "tglib_GetNGSetupRequest", "tglib_GetNasPdu", "tglib_GetPDUSessionResourceReleaseResponse", "tglib_GetPDUSessionResourceSetupResponse", "tglib_GetPDUSessionResourceSetupResponseForPaging", "tglib_GetPathSwitchRequest", "tglib_GetSessionManagementSubscriptionData", "tglib_GetSmPolicyData", "tglib_GetSmfSelectionSubscriptionData", "tglib_GetUEContextReleaseComplete", "tglib_GetUEContextReleaseRequest", "tglib_GetUplinkNASTransport", "tglib_NASDecode", "tglib_NASEncode", "tglib_NewRanUeContext", "tglib_RanUeContext_DerivateAlgKey", "tglib_RanUeContext_DerivateKamf", "tglib_RanUeContext_DeriveRESstarAndSetKey", "tglib_RanUeContext_Get5GMMCapability", "tglib_RanUeContext_GetUESecurityCapability"]
+def names : List String := ["UeauCommon_GetKDFValue", "UeauCommon_KDFLen", "stgutg_Conf_GetConfiguration", "stgutg_CreateUE", "stgutg_DecodePDUSessionNASPDU", "stgutg_DecodePDUSessionResourceSetupRequestTransfer", "stgutg_DeregisterUE", "stgutg_EncodeSuci", "stgutg_EstablishPDU", "stgutg_FindPDUSessionResourceSetupListSUReq", "stgutg_GetMode", "stgutg_ManageError", "stgutg_ManageNGSetup", "stgutg_Min", "stgutg_ModifyPDU", "stgutg_RegisterUE", "stgutg_ReleasePDU", "stgutg_ServiceRequest", "stgutg_hexCharToByte", "tglib_EncodeNasPduWithSecurity", "tglib_GetAccessAndMobilitySubscriptionData", "tglib_GetAmPolicyData", "tglib_GetAuthSubscription", "tglib_GetHandoverNotify", "tglib_GetHandoverRequestAcknowledge", "tglib_GetHandoverRequired", "tglib_GetInitialContextSetupResponse", "tglib_GetInitialContextSetupResponseForServiceRequest", "tglib_GetInitialUEMessage", "tglib_GetNGSetupRequest", "tglib_GetNasPdu", "tglib_GetPDUSessionResourceReleaseResponse", "tglib_GetPDUSessionResourceSetupResponse", "tglib_GetPDUSessionResourceSetupResponseForPaging", "tglib_GetPathSwitchRequest", "tglib_GetSessionManagementSubscriptionData", "tglib_GetSmPolicyData", "tglib_GetSmfSelectionSubscriptionData", "tglib_GetUEContextReleaseComplete", "tglib_GetUEContextReleaseRequest", "tglib_GetUplinkNASTransport", "tglib_NASDecode", "tglib_NASEncode", "tglib_NewRanUeContext", "tglib_RanUeContext_DerivateAlgKey", "tglib_RanUeContext_DerivateKamf", "tglib_RanUeContext_DeriveRESstarAndSetKey", "tglib_RanUeContext_Get5GMMCapability", "tglib_RanUeContext_GetUESecurityCapability"]
 
 end Stgutg.Spec.GluePinned
